@@ -461,6 +461,10 @@ func (w *World) ruleStreamLoops(r *Report, rule string, reach map[*ssa.Function]
 // ---- C16 ----
 
 func rulesC16(w *World, r *Report) {
+	{
+		reach := w.reachPkg(w.extractionRoots()...)
+		w.ruleCountedTraversals(r, "C16.R6 the walks visit every field and element", 2, func(fn *ssa.Function) bool { return reach[fn] || reach[rootFn(fn)] })
+	}
 	// R1a: type walk (self-recursive functions over reflect.Type with a map accumulator)
 	nR := 0
 	for _, fn := range w.SrcFuncs() {
